@@ -196,6 +196,8 @@ def index_from_own_enumeration(P, D, s, prop=None):
             todo.append(x[3])
         elif x[0] == "payload" and x[1] == "Some" and norm(x[2])[0] == "agg" and norm(x[2])[2] == "None":
             continue                      # the Some payload of a None: not a value
+        elif (x[0] == "field" and norm(x[1])[0] == "payload" and norm(norm(x[1])[2])[0] == "rec") or (x[0] == "payload" and norm(x[2])[0] == "rec") or x[0] == "rec":
+            continue                      # the variable's own earlier value (`else { best }`): whatever the other alternatives are
         elif x[0] == "field" and norm(x[1])[0] == "payload" and norm(x[1])[1] == "Some" and norm(norm(x[1])[2])[0] == "agg" and norm(norm(x[1])[2])[2] == "None":
             continue                      # ... nor is a field of it
         elif x[0] == "field" and norm(x[1])[0] == "payload" and norm(x[1])[1] == "Some" and norm(norm(x[1])[2])[0] == "phi":
